@@ -340,6 +340,31 @@ def white_successors(piece, idx):
     return out
 
 
+def black_successors(piece, idx):
+    """Successor slots (White to move) of a Black-to-move slot; -1 for the capture of the piece. Selection aid only."""
+    stm, rest = divmod(idx, 262144)
+    wk, rest = divmod(rest, 4096)
+    bk, x = divmod(rest, 64)
+    assert stm == 1
+    att = set()
+    for ray in _rays(piece, x):
+        for q in ray:
+            att.add(q)
+            if q == wk:
+                break
+    out = []
+    for t in _king(bk):
+        if t == wk or t in _king(wk):
+            continue
+        if t == x:
+            out.append(-1)
+            continue
+        if t in att:
+            continue
+        out.append(wk * 4096 + t * 64 + x)
+    return out
+
+
 def sample_slots(tb, pred, n, rnd, stm=0):
     lo, hi = (0, 262144) if stm == 0 else (262144, 524288)
     out = []
@@ -458,6 +483,17 @@ def check_c04(pid, tier, seed):
               "r1bqkbnr/pppp1Qpp/2n5/4p3/2B1P3/8/PPPP1PPP/RNB1K1NR b KQkq - 0 3"]:
         sid += 1
         sessions.append({"id": sid, "steps": [{"fen": f, "depth": 3, "seed": sid, "workers": 1, "tag": "terminal-root"}, {"fen": f, "depth": None, "seed": sid, "workers": 2, "reuse": True, "tag": "terminal-root"}]})
+    # (c') the side to move is being mated (non-terminal): Stop must be obeyed after the search has seen the mate
+    for piece in ("R", "Q"):
+        for i in sample_slots(tb[piece], lambda c: c in (4, 6), 6 if quick else 60, rnd, stm=1):
+            for n in (60, 800, 6000):
+                sid += 1
+                sessions.append({"id": sid, "steps": [{"fen": tb_fen(piece, i, mirror=sid % 2 == 0), "depth": None, "seed": sid, "workers": rnd.choice([1, 2]), "cancel_at": n, "tables": 2, "buckets": 256,
+                                                       "max_ms": 20000, "tag": "stop-while-being-mated"}]})
+    for f in ["8/7q/8/8/8/8/2k5/K7 w - - 0 1", "6k1/5ppp/8/8/8/8/r7/1r4K1 w - - 0 1"]:
+        for n in (30, 300, 3000):
+            sid += 1
+            sessions.append({"id": sid, "steps": [{"fen": f, "depth": None, "seed": sid, "workers": 1, "cancel_at": n, "tables": 2, "buckets": 256, "max_ms": 20000, "tag": "stop-while-being-mated"}]})
     # (d) tiny trees without a depth limit: they only end through Stop
     for f in ["5K1k/6pP/6P1/8/6p1/6P1/8/8 w - - 0 1", "7k/6pP/6P1/8/8/8/8/7K w - - 0 1", "k7/P7/K7/8/8/8/8/8 b - - 0 1"]:
         for n in ([0, 1, 3, 10, 100, 2000] if quick else list(range(0, 60)) + [100, 1000, 5000, 20000]):
@@ -539,6 +575,48 @@ def mate_sessions(tb, rnd, quick, sid0=0):
     return sessions, sid
 
 
+def mate_certificates(chk, wvbin, wd, pid, quick, seed):
+    """C06 outside the tablebase families: every mate claim of the engine on tactical / adversarial / random positions must be
+    provable move by move (CertTrace.tla)."""
+    fens = [l.strip() for l in open(os.path.join(CORPUS, "mates.fen")) if l.strip() and not l.startswith("#")]
+    fens += corpus_fens() + play_fens(wvbin, wd, seed + 5, 20 if quick else 300, 60, every=4)
+    fpath = os.path.join(wd, "cert_fens.txt")
+    with open(fpath, "w") as f:
+        f.write("\n".join(fens) + "\n")
+    jobs = []
+    per = max(1, (len(fens) + NPROC - 1) // NPROC)
+    for lo in range(0, len(fens), per):
+        jobs.append((0, lo, min(len(fens), lo + per), os.path.join(wd, "cert_%04d.ndjson" % lo)))
+
+    def gen(j):
+        _, lo, hi, path = j
+        empty = {"roots": 0, "with_forced_mate_within_5": 0, "solver_budget_exhausted": 0, "engine_searches": 0, "incomplete": 1}
+        try:
+            r = subprocess.run([wvbin, "mate-cert", "--fens", fpath, "--lo", str(lo), "--hi", str(hi), "--seed", str(seed), "--budget", str(300000 if quick else 3000000), "--out", path],
+                               capture_output=True, text=True, timeout=2400)
+            summ = json.loads(r.stdout.strip().splitlines()[-1]) if r.returncode == 0 else empty
+        except subprocess.TimeoutExpired:
+            summ = empty
+        return summ
+    with ThreadPoolExecutor(max_workers=NPROC) as ex:
+        summs = list(ex.map(gen, jobs))
+    res = tlc_many([dict(module="CertTrace", trace=j[3], xmx="4g", timeout=3000) for j in jobs if os.path.exists(j[3]) and os.path.getsize(j[3]) > 0])
+    chk.add_tlc(res)
+    rejected = sum(1 for r in res for k in r["skips"] if "certificate rejected" in json.dumps(k))
+    inconclusive = sum(1 for r in res for k in r["skips"] if "inconclusive" in json.dumps(k))
+    from check import fold_diags
+    fold_diags(chk, res, pid)
+    tot = {"roots": 0, "with_forced_mate_within_5": 0, "solver_budget_exhausted": 0, "engine_searches": 0, "incomplete": 0}
+    for sm in summs:
+        for k in tot:
+            tot[k] += sm.get(k, 0)
+    tot["certificates_rejected_by_tlc"] = rejected
+    tot["first_move_inconclusive"] = inconclusive
+    chk.coverage["mate_certificates"] = tot
+    chk.coverage["traces_validated_against_impl"] = chk.coverage.get("traces_validated_against_impl", 0) + len(jobs)
+    return tot
+
+
 def check_c06(pid, tier, seed):
     chk = Check(pid, tier, seed, "model_checking")
     wd = workdir(pid)
@@ -551,10 +629,11 @@ def check_c06(pid, tier, seed):
     sessions, sid = mate_sessions(tb, rnd, quick)
     traces = run_scripts(wvbin, wd, "c06", sessions)
     validate_search_traces(chk, traces, pid, files=files)
+    mate_certificates(chk, wvbin, wd, pid, quick, seed)
     st, samples = trace_stats(traces)
     ver = json.load(open(os.path.join(WORK, "tb", "verified.json")))
     chk.coverage.update({"evaluations": st["searches"], "distinct_nontrivial": st["mate_reports"],
-                         "rule": "K+R v K and K+Q v K positions (both colours attacking) drawn from tablebases whose every entry TLC checked against Chess.tla: forced mates in 1/3/5 plies searched with fresh memory at depth n..n+2 (completeness), draws / longer wins / defender-to-move positions (soundness), 1-32 workers with seeded schedules; SearchTrace.tla decides each report with the checked table; non-trivial = searches that reported a mate",
+                         "rule": "K+R v K and K+Q v K positions (both colours attacking) drawn from tablebases whose every entry TLC checked against Chess.tla: forced mates in 1/3/5 plies searched with fresh memory at depth n..n+2 (completeness), draws / longer wins / defender-to-move positions (soundness), 1-32 workers with seeded schedules; SearchTrace.tla decides each report with the checked table; plus strategy certificates (CertTrace.tla) for every mate the engine claims on tactical, adversarial (perpetual-check, stalemate-trap) and random-play positions; non-trivial = searches that reported a mate",
                          "samples": samples, "search_stats": st, "tablebase_slots_checked_by_tlc": ver["index_slots_checked"]})
     chk.assumptions += ["the tables are accepted only after spec/TbCheck.tla holds at every index slot (stamp over specification, checker, solver, tables)"]
     chk.finish()
@@ -599,6 +678,23 @@ def check_c17(pid, tier, seed):
                 # (ii) the way it happens in a game: S was searched before on the same memory (warm table)
                 sessions.append({"id": sid, "steps": [{"fen": S, "depth": rnd.choice([d, d + 1, max(1, d - 1)]), "seed": rnd.randrange(1 << 30), "workers": 1, "tag": "warm-up"},
                                                       {"fen": P, "reuse": True, "depth": d, "seed": rnd.randrange(1 << 30), "workers": w, "tag": "warm"}]})
+    # a root whose only moves re-enter recorded positions: every line is a draw, so the report must say 0
+    for piece in ("R", "Q"):
+        got = 0
+        tries = 0
+        while got < (40 if quick else 600) and tries < 400000:
+            tries += 1
+            i = rnd.randrange(262144, 524288)
+            if tb[piece][i] < 3:
+                continue
+            succ = black_successors(piece, i)
+            if not succ or -1 in succ or len(succ) > 2:
+                continue
+            got += 1
+            mirror = got % 2 == 0
+            sid += 1
+            sessions.append({"id": sid, "steps": [{"fen": tb_fen(piece, i, mirror), "history": [tb_fen(piece, j, mirror) for j in succ], "depth": rnd.choice([2, 3, 4]), "seed": rnd.randrange(1 << 30),
+                                                   "workers": rnd.choice([1, 1, 2]), "tag": "all-moves-recorded"}]})
     # the repository's own scenario
     sid += 1
     sessions.append({"id": sid, "steps": [{"fen": "8/8/8/8/8/k2r4/8/K7 b - - 0 1", "depth": 3, "seed": 1, "workers": 1, "tag": "repo-scenario"}]})
